@@ -38,7 +38,14 @@ func buildOverlay(repoDir, harnessDir string, rels []string) (map[string][]byte,
 		if err != nil {
 			return err
 		}
+		real := realRel(rel)
 		for _, e := range ents {
+			if e.Name() == "patch.json" {
+				if err := applyPatches(repoDir, real, filepath.Join(dir, e.Name()), ov, realOf); err != nil {
+					return err
+				}
+				continue
+			}
 			if e.IsDir() || !strings.HasSuffix(e.Name(), ".go") {
 				continue
 			}
@@ -46,7 +53,7 @@ func buildOverlay(repoDir, harnessDir string, rels []string) (map[string][]byte,
 			if err != nil {
 				return err
 			}
-			virt := filepath.Join(repoDir, rel, e.Name())
+			virt := filepath.Join(repoDir, real, e.Name())
 			if _, err := os.Stat(virt); err == nil {
 				return fmt.Errorf("overlay file %s would shadow a repository file", virt)
 			}
@@ -66,7 +73,68 @@ func buildOverlay(repoDir, harnessDir string, rels []string) (map[string][]byte,
 	return ov, realOf, nil
 }
 
+// realRel strips the variant suffix ("dir@variant") of a harness directory.
+func realRel(rel string) string {
+	if i := strings.IndexByte(rel, '@'); i >= 0 {
+		rel = rel[:i]
+	}
+	if rel == "" {
+		return "."
+	}
+	return rel
+}
+
+type patchSpec struct {
+	File    string `json:"file"`
+	Find    string `json:"find"`
+	Replace string `json:"replace"`
+}
+
+var patchTmp string
+
+// applyPatches builds reduced-parameter variants of repository files: the
+// current file with one checked textual substitution each (it must match
+// exactly once, otherwise the check fails loudly).
+func applyPatches(repoDir, rel, specFile string, ov map[string][]byte, realOf map[string]string) error {
+	b, err := os.ReadFile(specFile)
+	if err != nil {
+		return err
+	}
+	var specs []patchSpec
+	if err := json.Unmarshal(b, &specs); err != nil {
+		return fmt.Errorf("%s: %v", specFile, err)
+	}
+	if patchTmp == "" {
+		patchTmp, err = os.MkdirTemp("", "gosym-patch-")
+		if err != nil {
+			return err
+		}
+	}
+	for i, sp := range specs {
+		virt := filepath.Join(repoDir, rel, sp.File)
+		src, ok := ov[virt]
+		if !ok {
+			src, err = os.ReadFile(virt)
+			if err != nil {
+				return err
+			}
+		}
+		if n := strings.Count(string(src), sp.Find); n != 1 {
+			return fmt.Errorf("patch %s: %q occurs %d times in %s (want exactly 1)", specFile, sp.Find, n, virt)
+		}
+		out := []byte(strings.Replace(string(src), sp.Find, sp.Replace, 1))
+		ov[virt] = out
+		tmp := filepath.Join(patchTmp, fmt.Sprintf("%s_%d_%s", strings.ReplaceAll(rel, "/", "_"), i, sp.File))
+		if err := os.WriteFile(tmp, out, 0o644); err != nil {
+			return err
+		}
+		realOf[virt] = tmp
+	}
+	return nil
+}
+
 func pkgPathOf(rel string) string {
+	rel = realRel(rel)
 	if rel == "." || rel == "" {
 		return repoModule
 	}
